@@ -1,5 +1,6 @@
 import LoguruModel.Context.Model
 import LoguruModel.Context.Heap
+import LoguruModel.Context.Multi
 import LoguruModel.Driver
 open Context Py
 
@@ -182,6 +183,21 @@ def runH (toks : List String) : Option (HState Nat Nat) :=
     | none => none
     | some s => (parseHOp s t).map (fun e => hstep s e.1 e.2)) (some hinit)
 
+
+/-! several cores (Context/Multi.lean): `mprog <op> …`, op = ctx:core:code[:arg…] with the codes of `prog`
+(logger numbers are local to the core) plus `ctx:core:Y:l` = copy.deepcopy(logger l of that core)
+    -> events | loggers of core 0, of core 1, … | final context values -/
+def parseMOp (tok : String) : Option (Nat × MOp Nat Nat Pt) :=
+  match tok.splitOn ":" with
+  | c :: i :: rest =>
+    match c.toNat?, i.toNat? with
+    | some cn, some i =>
+      (match rest with
+      | ["Y", l] => l.toNat?.map (fun l => (cn, MOp.deepcopy i l))
+      | _ => (parseOp (":".intercalate (c :: rest))).map (fun e => (e.1, MOp.on i e.2)))
+    | _, _ => none
+  | _ => none
+
 def step (line : String) : String :=
   match line.splitOn " " with
   | "prog" :: toks =>
@@ -191,6 +207,17 @@ def step (line : String) : String :=
       let s := run papply (initT ptruthy : State Nat Nat Pt) ops
       let ev := " ".intercalate (s.out.map showEvent)
       let lg := " ".intercalate (s.loggers.map showOpts)
+      let vs := " ".intercalate ((List.range s.cv.n).map (fun c =>
+        "v:" ++ (match ContextVars.get s.cv c with | some a => showKw a | none => "-")))
+      ev ++ " | " ++ lg ++ " | " ++ vs
+  | "mprog" :: toks =>
+    match parseAll parseMOp (toks.filter (· ≠ "")) with
+    | none => "bad-op"
+    | some ops =>
+      let m := mrun papply (minit ptruthy : MState Nat Nat Pt) ops
+      let s := m.shared
+      let ev := " ".intercalate (s.out.map showEvent)
+      let lg := " ".intercalate ((m.cores.map (fun k => k.loggers.map showOpts)).flatten)
       let vs := " ".intercalate ((List.range s.cv.n).map (fun c =>
         "v:" ++ (match ContextVars.get s.cv c with | some a => showKw a | none => "-")))
       ev ++ " | " ++ lg ++ " | " ++ vs
